@@ -139,6 +139,28 @@ def check(ctx):
                     if binds and all(isinstance(b, ast.BinOp) and isinstance(b.op, ast.BitAnd) and mentions_self_attr(b, 'number_of_bits')
                                      and isinstance(b.right, ast.Constant) for b in binds):
                         continue
+                # SELF-MASK idiom, inline:  self.number_of_bits -= self.number_of_bits % 8  /  & 7   (a remainder of the count is never more than the count)
+                if kind == 'consume' and isinstance(amount, ast.BinOp) and isinstance(amount.op, (ast.Mod, ast.BitAnd)) and is_self_attr(amount.left, 'number_of_bits') \
+                        and isinstance(amount.right, ast.Constant) and isinstance(amount.right.value, int) and amount.right.value > 0:
+                    continue
+                # an index obtained from a checking helper of the same object inside the subscript:  self.value[self.consume_bits(1)]
+                if kind == 'index':
+                    helper_guarded = False
+                    for c_ in ast.walk(amount) if amount is not None else ():
+                        if isinstance(c_, ast.Call) and isinstance(c_.func, ast.Attribute) and isinstance(c_.func.value, ast.Name) and c_.func.value.id == 'self':
+                            r_ = c.find_method(c_.func.attr)
+                            if r_ is None:
+                                continue
+                            hps = sem.paths(r_[1])
+                            if hps is None:
+                                continue
+                            rets_ = [p_ for p_ in hps if p_.outcome[0] != 'raise']
+                            # every returning path of the helper has compared an amount with the remaining bits, and it raises OutOfDataError otherwise
+                            if rets_ and all(any(NB in t_ and (' > 0' in t_ or ' == 0' in t_) for t_, _pol in [(cc[0], cc[1]) for cc in p_.conds]) for p_ in rets_) \
+                                    and any(p_.outcome[0] == 'raise' and p_.outcome[1] == 'OutOfDataError' for p_ in hps):
+                                helper_guarded = True
+                    if helper_guarded:
+                        continue
                 if kind == 'assign':
                     # re-windowing the stream: acceptable only when the new number of available bits was first compared with the bits that exist
                     ok, why = guard_status(f, node, 'consume', amount, resolver)
